@@ -25,7 +25,7 @@ func init() { engines["maint"] = maintEngine }
 
 var maintStrategies = []string{
 	"normal", "no-r-dict", "error", "empty-r", "r-short-id", "r-bad-nodes", "r-list", "silent", "truncated",
-	"wrong-t", "y-missing", "nodes-self", "huge-nodes", "e-malformed", "r-and-e", "mixed",
+	"wrong-t", "y-missing", "nodes-self", "huge-nodes", "e-malformed", "r-and-e", "dup-addr", "dup-addr-own", "mixed",
 }
 
 func maintReply(r *rng, strategy string, q *krpc.Msg, self speer, others []speer, root [20]byte) []byte {
@@ -75,6 +75,36 @@ func maintReply(r *rng, strategy string, q *krpc.Msg, self speer, others []speer
 			many = append(many, krpc.NodeInfo{ID: id, Addr: krpc.NodeAddr{IP: net.IPv4(10, byte(i), 1, 1).To4(), Port: 1 + i}})
 		}
 		return enc(krpc.Msg{Y: "r", T: t, R: &krpc.Return{ID: self.id, Nodes: many}})
+	case "dup-addr", "dup-addr-own":
+		// one address under many ids (ids close to what was asked for), and nothing else: once the address has
+		// been asked, the remaining listings are stale candidates
+		victim := krpc.NodeAddr{IP: net.IPv4(10, 200, 1, 1).To4(), Port: 4000}
+		if strategy == "dup-addr-own" {
+			victim = krpc.NodeAddr{IP: self.addr.IP, Port: self.addr.Port}
+		}
+		var dup krpc.CompactIPv4NodeInfo
+		var dup6 krpc.CompactIPv6NodeInfo
+		tgt := root
+		if q.A != nil {
+			if q.A.Target != ([20]byte{}) {
+				tgt = q.A.Target
+			} else if q.A.InfoHash != ([20]byte{}) {
+				tgt = q.A.InfoHash
+			}
+		}
+		for i := 0; i < 2+r.intn(7); i++ {
+			id := tgt
+			id[19] ^= byte(1 + i)
+			id[18] ^= byte(r.intn(256))
+			ni := krpc.NodeInfo{ID: id, Addr: victim}
+			if victim.IP.To4() != nil {
+				ni.Addr.IP = victim.IP.To4()
+				dup = append(dup, ni)
+			} else {
+				dup6 = append(dup6, ni)
+			}
+		}
+		return enc(krpc.Msg{Y: "r", T: t, R: &krpc.Return{ID: self.id, Nodes: dup, Nodes6: dup6}})
 	case "e-malformed":
 		return []byte("d1:eli201ee1:t" + bs(t) + "1:y1:ee")
 	case "r-and-e":
